@@ -1,6 +1,7 @@
 import SwhVerif.Model.Values
 import SwhVerif.Lemmas.Bytes
 import SwhVerif.Lemmas.Directory
+import SwhVerif.Lemmas.Frozen
 /-!
 # C11 — Model values are immutable and behave as values (equality, hashing)
 The part a Lean model can carry: order-free equality/hash of frozen mappings, equality ⇒ equal
@@ -81,5 +82,202 @@ theorem construct_alias_not_isolated :
       observe (mutateAll (construct .alias s arg).1 [op]) (construct .alias s arg).2 ≠ s.cells arg := by
   refine ⟨⟨fun _ => [], 1⟩, 0, (0, fun _ => [([], 1)]), by decide, ?_⟩
   simp [construct, mutateAll, mutate, observe]
+
+/-! ## The frozen mapping in a heap the caller keeps mutating
+
+Heap model of `swh.model.collections.ImmutableDict` (`Swh.Frozen`, SwhVerif/Model/Frozen.lean):
+caller-owned dictionaries and lists, library-owned (private) ones, the three construction
+routes, `copy_pop` and `__getitem__`, under the copying discipline of the code as it is
+(`deep`) — and, for the negative results, under `shallow` and `alias`.
+`step = stepD .deep`, `run = runD .deep`. -/
+section FrozenHeap
+open Swh.Frozen
+
+/-- the invariant (private locations are allocated; the `_data` of every frozen object and
+    every list it refers to are private) holds of the empty heap … -/
+theorem inv_init : Inv init := inv_init_heap
+
+/-- … and is preserved by every operation, caller's or library's -/
+theorem inv_step (h : Heap) (hinv : Inv h) (op : Op) : Inv (step h op).1 := (step_ok h hinv op).2
+
+theorem inv_run (h : Heap) (hinv : Inv h) (ops : List Op) : Inv (run h ops) := (run_ok h hinv ops).2
+
+/-- every reachable heap satisfies the invariant -/
+theorem inv_reachable (pre : List Op) : Inv (run init pre) := inv_run init inv_init pre
+
+/-- **No history of operations changes what a frozen mapping contains**: whatever the caller
+    does to the containers it can name and whatever else the library is asked to build, in any
+    interleaving and for histories of any length, the resolved items of every frozen object that
+    exists stay what they were. -/
+theorem frozen_never_changes (h : Heap) (hinv : Inv h) (ops : List Op) (i : Nat)
+    (hi : i < h.frozen.length) : view (run h ops) i = view h i :=
+  view_of_frame hinv (run_ok h hinv ops).1 i hi
+
+/-- the same, for heaps reachable from the empty heap: once an object exists (after `pre`), no
+    continuation `ops` changes its view -/
+theorem frozen_never_changes_reachable (pre ops : List Op) (i : Nat)
+    (hi : i < (run init pre).frozen.length) :
+    view (run init (pre ++ ops)) i = view (run init pre) i := by
+  have : run init (pre ++ ops) = run (run init pre) ops := by simp [run, runD, List.foldl_append]
+  rw [this]
+  exact frozen_never_changes _ (inv_reachable pre) ops i hi
+
+/-- **route 1** (`ImmutableDict(d)`, `d` a dict): the new object's view is the resolved items of
+    `src` at that moment -/
+theorem fromDict_view (h : Heap) (src : Frozen.Loc) (hs : src < h.next) (hd : h.isDict src = true) :
+    (step h (.fromDict src)).2 = .obj h.frozen.length ∧
+    view (step h (.fromDict src)).1 h.frozen.length = some (resolve h.lists (h.dicts src)) := by
+  simp only [step, stepD, hs, hd, decide_true, Bool.and_self, if_true, copyDict, true_and]
+  rw [view_record_new _ _ _ (by rw [(deepCopyDict_ext h src).frozen_eq]), deepCopyDict_resolve]
+
+/-- **route 3** (`ImmutableDict(pairs)`): the view is the resolved `dict(pairs)` — position of the
+    first occurrence of each key, value of the last (`keys_ofPairs`, `lookup_ofPairs`) -/
+theorem fromPairs_view (h : Heap) (ps : List (Key × Val)) :
+    (step h (.fromPairs ps)).2 = .obj h.frozen.length ∧
+    view (step h (.fromPairs ps)).1 h.frozen.length = some (resolve h.lists (ofPairs ps)) := by
+  simp only [step, stepD, copyDict, true_and]
+  rw [view_record_new _ _ _ (by rw [(deepCopyDict_ext _ _).frozen_eq]; rfl), deepCopyDict_resolve]
+  simp
+
+/-- **route 2** (`ImmutableDict(other)`): the new object's view equals the old object's view -/
+theorem fromFrozen_view (h : Heap) (i : Nat) (hi : i < h.frozen.length) :
+    (step h (.fromFrozen i)).2 = .obj h.frozen.length ∧
+    view (step h (.fromFrozen i)).1 h.frozen.length = view h i ∧
+    view (step h (.fromFrozen i)).1 i = view h i := by
+  have hd : h.frozen[i]? = some h.frozen[i] := List.getElem?_eq_getElem hi
+  simp only [step, stepD, hd, true_and]
+  refine ⟨?_, ?_⟩
+  · rw [view_record_new _ _ _ rfl]; simp [view, hd]
+  · simp [view, List.getElem?_append_left hi]
+
+/-- `copy_pop`, the part that needs no invariant: the popped value is the resolved lookup of `k`
+    (none when absent) and the new object's view is the old view with `k` erased, the order of
+    the rest kept -/
+theorem copyPop_result (h : Heap) (i : Nat) (k : Key) (v : List (Key × RVal))
+    (hv : view h i = some v) :
+    (step h (.copyPop i k)).2 = .popped h.frozen.length (lookup k v) ∧
+    view (step h (.copyPop i k)).1 h.frozen.length = some (delItem k v) := by
+  obtain ⟨d, hd, rfl⟩ := view_eq_some hv
+  simp only [step, stepD, hd, copyDict]
+  refine ⟨?_, ?_⟩
+  · rw [lookup_resolve, deepCopyDict_resolve]
+  · rw [view_record_new _ _ _ (by rw [(deepCopyDict_ext _ _).frozen_eq]; simp [(deepCopyDict_ext h d).frozen_eq]),
+      deepCopyDict_resolve]
+    simp only [setDict_lists, setDict_dicts, if_true]
+    rw [delItem_resolve, deepCopyDict_resolve]
+
+/-- **`copy_pop`**: popped value, view of the new object, and the receiver is unchanged -/
+theorem copyPop_spec (h : Heap) (hinv : Inv h) (i : Nat) (k : Key) (v : List (Key × RVal))
+    (hv : view h i = some v) :
+    (step h (.copyPop i k)).2 = .popped h.frozen.length (lookup k v) ∧
+    view (step h (.copyPop i k)).1 h.frozen.length = some (delItem k v) ∧
+    view (step h (.copyPop i k)).1 i = view h i :=
+  ⟨(copyPop_result h i k v hv).1, (copyPop_result h i k v hv).2,
+    view_of_frame hinv (step_ok h hinv (.copyPop i k)).1 i (view_lt hv)⟩
+
+/-- the popped key is gone from the new object and every other key reads as before (the
+    dictionary in a frozen object has distinct keys) -/
+theorem copyPop_lookup (v : List (Key × RVal)) (k k2 : Key) (hnd : (v.map (·.1)).Nodup) :
+    lookup k2 (delItem k v) = if k2 = k then none else lookup k2 v := by
+  by_cases hk : k2 = k
+  · subst hk; simp [lookup_delItem_self _ _ hnd]
+  · simp [hk, lookup_delItem_ne hk]
+
+/-- the items of a frozen object have distinct keys, after any history under any discipline (so
+    `copyPop_lookup` applies to every view) -/
+theorem frozen_keys_distinct (disc : Discipline) (ops : List Op) (i : Nat) (v : List (Key × RVal))
+    (hv : view (runD disc init ops) i = some v) : (v.map (·.1)).Nodup :=
+  view_keys_nodup (keysNodup_runD disc init keysNodup_init ops) hv
+
+/-- **`__getitem__` is pure**, under every discipline -/
+theorem lookup_pure (disc : Discipline) (h : Heap) (i : Nat) (k : Key) :
+    (stepD disc h (.lookup i k)).1 = h := by
+  simp only [stepD]; split <;> rfl
+
+/-- … and returns the resolved value of the key in the view (none when absent) -/
+theorem lookup_value (disc : Discipline) (h : Heap) (i : Nat) (k : Key) (v : List (Key × RVal))
+    (hv : view h i = some v) : (stepD disc h (.lookup i k)).2 = .value (lookup k v) := by
+  obtain ⟨d, hd, rfl⟩ := view_eq_some hv
+  simp only [stepD, hd, lookup_resolve]
+
+/-! ### negative results: what the copies are for -/
+
+/-- with a SHALLOW copy in route 1, a caller's `list.append` changes a frozen view -/
+theorem shallow_copy_not_frozen :
+    ∃ (pre : List Op) (op : Op) (i : Nat), i < (runD .shallow init pre).frozen.length ∧
+      view (runD .shallow init (pre ++ [op])) i ≠ view (runD .shallow init pre) i :=
+  ⟨[.newList [1], .newDict [(0, .listRef 0)], .fromDict 1], .listAppend 0 2, 0, by decide, by decide⟩
+
+/-- route 3 WITHOUT the deep copy (a real defect of the library): `ImmutableDict([(k, l)])`
+    then `l.append(n)` changes the view -/
+theorem alias_pairs_not_frozen :
+    ∃ (pre : List Op) (op : Op) (i : Nat), i < (runD .alias init pre).frozen.length ∧
+      view (runD .alias init (pre ++ [op])) i ≠ view (runD .alias init pre) i :=
+  ⟨[.newList [1], .fromPairs [(7, .listRef 0)]], .listAppend 0 2, 0, by decide, by decide⟩
+
+/-- a `copy_pop` that pops from the shared `_data` instead of a copy changes the receiver and
+    every object sharing it -/
+theorem copyPop_shared_not_frozen :
+    ∃ (pre : List Op) (op : Op), 2 ≤ (runD .alias init pre).frozen.length ∧
+      view (runD .alias init (pre ++ [op])) 0 ≠ view (runD .alias init pre) 0 ∧
+      view (runD .alias init (pre ++ [op])) 1 ≠ view (runD .alias init pre) 1 :=
+  ⟨[.fromPairs [(1, .atom 5), (2, .atom 6)], .fromFrozen 0], .copyPop 0 1, by decide, by decide, by decide⟩
+
+/-- the same three histories under the discipline of the code as it is: nothing moves -/
+example :
+    view (run init [.newList [1], .newDict [(0, .listRef 0)], .fromDict 1, .listAppend 0 2]) 0
+      = some [(0, .list [1])] ∧
+    view (run init [.newList [1], .fromPairs [(7, .listRef 0)], .listAppend 0 2]) 0
+      = some [(7, .list [1])] ∧
+    views (run init [.fromPairs [(1, .atom 5), (2, .atom 6)], .fromFrozen 0, .copyPop 0 1])
+      = [[(1, .atom 5), (2, .atom 6)], [(1, .atom 5), (2, .atom 6)], [(2, .atom 6)]] := by decide
+
+/-! ### non-vacuity: a history mixing every kind of operation -/
+
+/-- 14 operations, all 12 kinds -/
+def demoHistory : List Op :=
+  [ .newList [1, 2],                                        -- location 0
+    .newDict [(10, .atom 7), (11, .listRef 0)],             -- location 1
+    .fromDict 1,                                            -- object 0
+    .listAppend 0 3,
+    .dictSet 1 12 (.atom 9),
+    .fromFrozen 0,                                          -- object 1
+    .fromPairs [(5, .listRef 0), (6, .atom 1), (5, .atom 2)], -- object 2
+    .copyPop 0 11,                                          -- object 3
+    .dictDel 1 10,
+    .fromDict 1,                                            -- object 4
+    .dictClear 1,
+    .listSetAll 0 [],
+    .lookup 0 11,
+    .lookup 3 11 ]
+
+example : views (run init demoHistory) =
+    [ [(10, .atom 7), (11, .list [1, 2])],
+      [(10, .atom 7), (11, .list [1, 2])],
+      [(5, .atom 2), (6, .atom 1)],
+      [(10, .atom 7)],
+      [(11, .list [1, 2, 3]), (12, .atom 9)] ] := by decide
+
+example : (traceD .deep init demoHistory).map (·.1) =
+    [ .loc 0, .loc 1, .obj 0, .unit, .unit, .obj 1, .obj 2, .popped 3 (some (.list [1, 2])),
+      .unit, .obj 4, .unit, .unit, .value (some (.list [1, 2])), .value none ] := by decide
+
+/-- the caller's own containers did change (the history is not a string of no-ops) -/
+example : (run init demoHistory).dicts 1 = [] ∧ (run init demoHistory).lists 0 = [] := by decide
+
+/-- caller operations naming a private location, a location of the wrong kind or an unallocated
+    one, and library operations naming an object that does not exist, are no-ops -/
+example : (traceD .deep init [.newList [1], .fromPairs [(1, .listRef 0)], .dictSet 2 1 (.atom 0),
+      .listAppend 1 5, .listAppend 9 5, .dictClear 0, .fromFrozen 3, .copyPop 1 1, .lookup 1 1,
+      .fromDict 0, .fromDict 7]).map (·.1) =
+    [.loc 0, .obj 0, .invalid, .invalid, .invalid, .invalid, .invalid, .invalid, .invalid,
+      .invalid, .invalid] := by decide
+
+/-- the same history under the three disciplines: the views at the end differ exactly where the
+    copies matter -/
+example : views (runD .shallow init demoHistory) ≠ views (run init demoHistory) ∧
+    views (runD .alias init demoHistory) ≠ views (run init demoHistory) := by decide
+
+end FrozenHeap
 
 end Swh.C11
